@@ -6,17 +6,21 @@ Subject: the executable model `ZV.Dag` (`Model/Dag.lean`) of zepid/causal/causal
 definitions the native driver runs against the real code in gate K.  Everything is stated for arbitrary finite
 graphs (any number of nodes, any insertion order of nodes and arrows, any op sequence); nothing is bounded.
 
-Specification (`Lemmas/Dag.lean`): `Admissible E x y Z` :≡ no member of `Z` is a proper descendant of `x`, and
-`x`,`y` are not connected in  moral( G minus the arrows leaving x, restricted to An({x,y} ∪ Z) ) − Z.  This is the
-Lauritzen–Dawid–Larsen–Leimer moral-graph criterion, taken here as the *definition* of "Z d-separates x and y in
-the graph without the arrows leaving x".  Its equivalence with path-blocking d-separation is classical and is
-NOT proved here; it is tested by compiled evaluation of both definitions on all DAGs with ≤ 4/5 nodes (driver op
-`dagsep`, harness: a test, not a proof) and by gate D, whose oracle enumerates paths in Python.
+Specification (`Lemmas/Dag.lean`, `Lemmas/DagPaths.lean`): `Admissible E x y Z` :≡ no member of `Z` is a proper
+descendant of `x`, and `x`,`y` are not connected in  moral( G minus the arrows leaving x, restricted to
+An({x,y} ∪ Z) ) − Z  (the Lauritzen–Dawid–Larsen–Leimer moral-graph criterion, which is what the code computes).
+That this criterion *is* d-separation in the path-blocking sense is proved here for every finite DAG
+(`dsep_moral_iff_pathblocking`): every path (equivalently every walk) between `x` and `y` contains a non-collider in
+`Z` or a collider outside `Z` without a descendant in `Z`.  Hence `check_iff_pathblocking` /
+`check_iff_backdoor_paths`: the check accepts `Z` iff `Z` holds no descendant of the exposure and blocks every
+back-door path; and `check_eq_backdoorPaths`: the check equals the executable path-enumerating oracle
+`backdoorPaths` of `Model/Dag.lean` (formerly only compared by compiled evaluation on ≤ 5 nodes).
 
 Not covered by a theorem: that networkx's `descendants/ancestors/has_path/is_directed_acyclic_graph` compute
 reachability (measured by gates K/H), and the string-label → number mapping of the harness.
 -/
 import ZepidVerif.Lemmas.Dag
+import ZepidVerif.Lemmas.DagPaths
 namespace ZV.P18
 open ZV.Dag Relation
 
@@ -68,11 +72,112 @@ example : DSepMoral (mbias.edges.filter (fun e => e.1 != 0)) 0 1 [4, 3] :=
   ((check_iff_backdoor mbias (by decide) 0 1 [4, 3]).mp (by decide)).2
 example : Admissible mbias.edges 0 1 [4, 3] := (check_iff_admissible mbias (by decide) 0 1 [4, 3]).mp (by decide)
 
-/-- bounded supplement, kernel-checked only on this tiny instance (all 8 candidate sets of the M-bias graph): the
-    modelled check (moral-graph criterion) agrees with path-blocking d-separation `backdoorPaths`.  The exhaustive
-    comparison on all DAGs with ≤ 4/5 nodes is done by compiled evaluation in the driver (a test, not a proof). -/
+/-! ### The moral-graph criterion is path-blocking d-separation (Lauritzen, Dawid, Larsen, Leimer 1990) -/
+
+/-- for every finite DAG (any number of nodes) and `x`, `y` outside `Z`: `Z` separates `x` from `y` in the moral graph
+    of the sub-DAG induced by `An({x,y} ∪ Z)` iff every path between `x` and `y` (a list of distinct nodes, consecutive
+    ones joined by an arrow in either direction) is blocked by `Z` — it contains a non-collider that is in `Z`, or a
+    collider that is not in `Z` and has no descendant in `Z` — iff every walk (nodes may repeat) is blocked -/
+theorem dsep_moral_iff_pathblocking (E : List Edge) (hac : Acyclic E) (x y : Nat) (Z : List Nat) (hx : x ∉ Z)
+    (hy : y ∉ Z) :
+    (DSepMoral E x y Z ↔ DSepPaths E x y Z) ∧ (DSepMoral E x y Z ↔ DSepWalks E x y Z) :=
+  ⟨dsepMoral_iff_paths hac hx hy, dsepMoral_iff_walks hac hx hy⟩
+
+/-- the definitions are not vacuous.  M-bias graph, the only back-door path 0 ← 2 → 4 ← 3 → 1: it is a path, it is
+    blocked by the empty set (collider 4), opened by {4}, and blocked again by {4, 3} -/
+example : IsWalk mbias.edges [0, 2, 4, 3, 1] ∧ FromTo [0, 2, 4, 3, 1] 0 1 ∧ [0, 2, 4, 3, 1].Nodup ∧
+    IsBackdoor mbias.edges 0 [0, 2, 4, 3, 1] :=
+  ⟨by decide, by decide, by decide, ⟨2, [4, 3, 1], rfl, by decide⟩⟩
+example : Blocked mbias.edges [] [0, 2, 4, 3, 1] := (pathBlocked_iff _).mp (by decide)
+example : ¬ Blocked mbias.edges [4] [0, 2, 4, 3, 1] := fun h => absurd ((pathBlocked_iff _).mpr h) (by decide)
+example : Blocked mbias.edges [4, 3] [0, 2, 4, 3, 1] := (pathBlocked_iff _).mp (by decide)
+/-- a walk that is not a path (it turns round at the collider 4), unblocked given {4} -/
+example : IsWalk mbias.edges [2, 4, 2] ∧ ¬ Blocked mbias.edges [4] [2, 4, 2] :=
+  ⟨by decide, fun h => absurd ((pathBlocked_iff _).mpr h) (by decide)⟩
+
+/-- the executable enumeration `dsepPaths` of `Model/Dag.lean` (fuel = number of nodes + 1) decides path-blocking
+    d-separation in every sub-graph of a well-formed DAG -/
+theorem dsepPaths_exec_iff (G : Graph) (hwf : G.WF) (E' : List Edge) (hE : ∀ e ∈ E', e ∈ G.edges)
+    (hac : Acyclic E') (x y : Nat) (Z : List Nat) (hx : x ∉ Z) (hy : y ∉ Z) :
+    dsepPaths G.nodes.length E' x y Z = true ↔ DSepPaths E' x y Z :=
+  dsepPaths_iff (fun _ hnd hw => simple_path_length hwf hE hnd hw) hac hx hy
+
+/-! ### The check decides back-door admissibility in the path-blocking sense -/
+
+/-- **C18 in the words of the property.**  For every well-formed DAG, exposure `x`, outcome `y` and candidate set `Z`
+    (not containing `x`, `y`): `_check_valid_adjustment_set_` returns True iff no member of `Z` is a descendant of
+    the exposure and every path from `x` to `y` in the graph without the arrows leaving `x` is blocked by `Z` -/
+theorem check_iff_pathblocking (G : Graph) (hwf : G.WF) (hac : Acyclic G.edges) (x y : Nat) (Z : List Nat)
+    (hx : x ∉ Z) (hy : y ∉ Z) :
+    check G x y Z = true ↔
+      (∀ z ∈ Z, ¬ IsDesc G.edges x z) ∧ DSepPaths (G.edges.filter (fun e => e.1 != x)) x y Z := by
+  have hac' : Acyclic (G.edges.filter (fun e => e.1 != x)) :=
+    fun v hv => hac v (tg_mono (fun e he => (List.mem_filter.mp he).1) hv)
+  rw [check_iff_backdoor G hwf, dsepMoral_iff_paths hac' hx hy]
+
+/-- the same with walks (nodes may repeat) instead of paths -/
+theorem check_iff_walkblocking (G : Graph) (hwf : G.WF) (hac : Acyclic G.edges) (x y : Nat) (Z : List Nat)
+    (hx : x ∉ Z) (hy : y ∉ Z) :
+    check G x y Z = true ↔
+      (∀ z ∈ Z, ¬ IsDesc G.edges x z) ∧ DSepWalks (G.edges.filter (fun e => e.1 != x)) x y Z := by
+  have hac' : Acyclic (G.edges.filter (fun e => e.1 != x)) :=
+    fun v hv => hac v (tg_mono (fun e he => (List.mem_filter.mp he).1) hv)
+  rw [check_iff_backdoor G hwf, dsepMoral_iff_walks hac' hx hy]
+
+/-- … and with the back-door paths of the *full* graph: the paths from `x` to `y` whose first arrow points into `x`,
+    blocking (colliders, descendants) judged in the full graph — Pearl's back-door criterion verbatim -/
+theorem check_iff_backdoor_paths (G : Graph) (hwf : G.WF) (hac : Acyclic G.edges) (x y : Nat) (Z : List Nat)
+    (hxy : x ≠ y) (hx : x ∉ Z) (hy : y ∉ Z) :
+    check G x y Z = true ↔ (∀ z ∈ Z, ¬ IsDesc G.edges x z) ∧ BackdoorBlocked G.edges x y Z := by
+  rw [check_iff_pathblocking G hwf hac x y Z hx hy]
+  constructor
+  · rintro ⟨h1, h2⟩; exact ⟨h1, (dsepPaths_filter_iff_backdoor hac hxy hx h1).mp h2⟩
+  · rintro ⟨h1, h2⟩; exact ⟨h1, (dsepPaths_filter_iff_backdoor hac hxy hx h1).mpr h2⟩
+
+example : mbias.WF ∧ Acyclic mbias.edges := ⟨by decide, isAcyclic_iff.mp (by decide)⟩
+example : BackdoorBlocked mbias.edges 0 1 [] :=
+  ((check_iff_backdoor_paths mbias (by decide) (isAcyclic_iff.mp (by decide)) 0 1 [] (by decide) (by decide)
+    (by decide)).mp (by decide)).2
+/-- the collider {4} opens the back-door path: not every back-door path is blocked, and the check says no -/
+example : ¬ BackdoorBlocked mbias.edges 0 1 [4] ∧ check mbias 0 1 [4] = false :=
+  ⟨fun h => absurd ((pathBlocked_iff _).mpr
+      (h [0, 2, 4, 3, 1] (by decide) (by decide) (by decide) ⟨2, [4, 3, 1], rfl, by decide⟩)) (by decide),
+   by decide⟩
+example : DSepPaths (mbias.edges.filter (fun e => e.1 != 0)) 0 1 [4, 3] :=
+  ((check_iff_pathblocking mbias (by decide) (isAcyclic_iff.mp (by decide)) 0 1 [4, 3] (by decide)
+    (by decide)).mp (by decide)).2
+
+/-- the modelled check *is* the path-enumerating oracle `backdoorPaths` of `Model/Dag.lean` (no descendant of `x` in
+    `Z`, and every simple path of the graph without the arrows leaving `x`, enumerated with fuel `#nodes + 1`, is
+    blocked) — for every well-formed DAG, not only the ≤ 5-node graphs on which the driver compares the two -/
+theorem check_eq_backdoorPaths (G : Graph) (hwf : G.WF) (hac : Acyclic G.edges) (x y : Nat) (Z : List Nat)
+    (hx : x ∉ Z) (hy : y ∉ Z) : check G x y Z = backdoorPaths G x y Z := by
+  have hac' : Acyclic (G.edges.filter (fun e => e.1 != x)) :=
+    fun v hv => hac v (tg_mono (fun e he => (List.mem_filter.mp he).1) hv)
+  rw [Bool.eq_iff_iff, check_iff_pathblocking G hwf hac x y Z hx hy]
+  unfold backdoorPaths
+  rw [Bool.and_eq_true, dsepPaths_exec_iff G hwf _ (fun e he => (List.mem_filter.mp he).1) hac' x y Z hx hy]
+  simp [mem_desc]
+
+/-- kernel-checked instance (all 8 candidate sets of the M-bias graph) of `check_eq_backdoorPaths` -/
 example : (allSubsets (cands mbias 0 1)).all (fun Z => check mbias 0 1 Z == backdoorPaths mbias 0 1 Z) = true := by
   decide
+
+/-- what `calculate_adjustment_sets` lists, in the words of the property: a sub-list of the candidate nodes is
+    reported iff it holds no descendant of the exposure and blocks every back-door path -/
+theorem listed_iff_backdoor_paths (G : Graph) (hinv : G.Inv) (hac : Acyclic G.edges) (x y : Nat) (hxy : x ≠ y)
+    (Z : List Nat) :
+    Z ∈ listAll G x y ↔
+      Z.Sublist (cands G x y) ∧ (∀ z ∈ Z, ¬ IsDesc G.edges x z) ∧ BackdoorBlocked G.edges x y Z := by
+  rw [mem_listAll]
+  have key : Z.Sublist (cands G x y) → x ∉ Z ∧ y ∉ Z := fun hs =>
+    ⟨fun h => ((mem_cands hinv.nodup).mp (hs.subset h)).2.1 rfl,
+     fun h => ((mem_cands hinv.nodup).mp (hs.subset h)).2.2 rfl⟩
+  constructor
+  · rintro ⟨hs, hc⟩
+    exact ⟨hs, (check_iff_backdoor_paths G hinv.wf hac x y Z hxy (key hs).1 (key hs).2).mp hc⟩
+  · rintro ⟨hs, hb⟩
+    exact ⟨hs, (check_iff_backdoor_paths G hinv.wf hac x y Z hxy (key hs).1 (key hs).2).mpr hb⟩
 
 /-- the verdict does not depend on the order in which nodes and arrows were inserted, nor on the order in which
     the candidate set is written (this failed for the moralisation loop before /repo commit b89edca) -/
